@@ -51,3 +51,29 @@ Proof.
   intros f g H s1 s2 ct H1 H2. apply H in H1. apply H in H2. rewrite H1 in H2. now injection H2.
 Qed.
 Print Assumptions C10_injective.
+
+(* ---------- field-name mode ---------- *)
+From Proofs Require Import TableFacts Survivors SurvivorsLine RfnSim RfnLine.
+
+(* The same comparison of the two modes when --redactFieldNames is active for the line, for every query-bearing
+   value of a command document: on clear index paths (field-path / namespace / exempt arguments are where the
+   field-name mode differs by design) and for leaves that are not '$field' references. The action sets of both
+   modes use the same pseudonym function, so [sib_ok] is one premise. *)
+Theorem C10_modes_fieldname_mode : forall tb cs c f ins k v p leaf,
+  re c = None -> nodup_keys v -> sib_ok (real_actions cs c None) v ->
+  jget v p = Some leaf -> is_leaf leaf -> nd leaf -> clear tb v p = true ->
+  exists op oe,
+    jget (cmd_member tb cs c (real_actions cs c None) true ins k v) p = Some op /\
+    jget (cmd_member tb cs c (real_actions cs c (Some f)) true ins k v) p = Some oe /\
+    (oe = op \/
+     exists s ph, leaf = JStr s /\ op = JStr ph /\
+                  oe = JStr (match f s with Some ct => ct | None => ph end)).
+Proof.
+  intros tb cs c f ins k v p leaf Hre Hn Hs Hg Hl Hd Hc.
+  destruct (cmd_member_rfn_rel tb cs c (real_actions cs c None) (real_actions cs c (Some f)) Hre ins k v p leaf Hn Hs Hs Hg Hl Hd Hc)
+    as (d & Hok & Hp & Hen).
+  do 2 eexists. split; [exact Hp|]. split; [exact Hen|].
+  destruct d; simpl in Hok |- *; try (left; destruct leaf; reflexivity).
+  destruct Hok as (s & -> & _). right. exists s, ph. simpl. auto.
+Qed.
+Print Assumptions C10_modes_fieldname_mode.
